@@ -529,4 +529,5 @@ def run(ctx):
     from . import c01
     from .common import shared
 
+    shared(ctx, "C02.b", c01.rule_a, why="the extents of a sub-image are carried from Cartesian to matrix order through interpret_indexing: the table must be a signed bijection whose 'xyz' rows invert its 'ijk' rows")
     shared(ctx, "C02.b", c01.rule_b, why="subregion(CoordinateArray) and the sub-image's origin go through CoordinateSystem.voxel / coordinate")
